@@ -727,4 +727,191 @@ theorem eqUnder_iff_bits (bits : Nat) : ∀ (x y : IP) (i : Nat), x.length = y.l
           have := h (j + 8) (by simp; omega) (by omega)
           rwa [bitOf_cons_ge, bitOf_cons_ge] at this
 
+/-! ### `dns.PackDomainName` reads back what `dns.UnpackDomainName` renders -/
+
+theorem packGo_lit (many : Bool) (c : Char) (rest : Name) (f w : Bool) (cur : List UInt8) (acc : List (List UInt8)) (off : Nat)
+    (h1 : c ≠ '\\') (h2 : c ≠ '.') :
+    packGo many (c :: rest) f w cur acc off = packGo many rest false false (cur ++ [UInt8.ofNat c.toNat]) acc off := by
+  conv => lhs; unfold packGo
+  split <;> simp_all
+
+theorem packGo_dot (many : Bool) (rest : Name) (f w : Bool) (cur : List UInt8) (acc : List (List UInt8)) (off : Nat) :
+    packGo many ('.' :: rest) f w cur acc off =
+      (if f && many then none else if w then none else if cur.length ≥ 64 then none
+       else if off + 1 + cur.length > 256 then none
+       else packGo many rest false true [] (cur :: acc) (off + 1 + cur.length)) := by
+  conv => lhs; unfold packGo
+  simp
+
+theorem packGo_ddd (many : Bool) (d0 d1 d2 : Char) (rest : Name) (f w : Bool) (cur : List UInt8) (acc : List (List UInt8)) (off : Nat)
+    (h : (isDigitC d0 && isDigitC d1 && isDigitC d2) = true) :
+    packGo many ('\\' :: d0 :: d1 :: d2 :: rest) f w cur acc off =
+      packGo many rest false false
+        (cur ++ [UInt8.ofNat (((d0.toNat - 48) * 100 + (d1.toNat - 48) * 10 + (d2.toNat - 48)) % 256)]) acc off := by
+  conv => lhs; unfold packGo
+  simp [h]
+
+theorem packGo_esc (many : Bool) (c : Char) (rest : Name) (f w : Bool) (cur : List UInt8) (acc : List (List UInt8)) (off : Nat)
+    (h : isDigitC c = false) :
+    packGo many ('\\' :: c :: rest) f w cur acc off = packGo many rest false false (cur ++ [UInt8.ofNat c.toNat]) acc off := by
+  match rest with
+  | [] =>
+    conv => lhs; unfold packGo
+    simp
+  | [x] =>
+    conv => lhs; unfold packGo
+    simp
+  | x :: y :: r => conv => lhs; unfold packGo
+                   simp [h]
+
+/-- what `presentByte` produces, byte class by byte class, as a checkable Boolean. -/
+def byteShapeOK (b : UInt8) : Bool :=
+  let c := Char.ofNat b.toNat
+  if isLabelSpecial b then !isDigitC c && UInt8.ofNat c.toNat == b
+  else if b.toNat < 32 || b.toNat > 126 then
+    let d0 := digitChar (b.toNat / 100); let d1 := digitChar (b.toNat / 10 % 10); let d2 := digitChar (b.toNat % 10)
+    isDigitC d0 && isDigitC d1 && isDigitC d2 &&
+      UInt8.ofNat (((d0.toNat - 48) * 100 + (d1.toNat - 48) * 10 + (d2.toNat - 48)) % 256) == b
+  else c != '\\' && c != '.' && UInt8.ofNat c.toNat == b
+
+set_option maxRecDepth 16384 in
+theorem byteShape_all : ∀ n, n < 256 → byteShapeOK (UInt8.ofNat n) = true := by decide
+
+theorem byteShape (b : UInt8) : byteShapeOK b = true := by
+  have := byteShape_all b.toNat b.toNat_lt
+  rwa [UInt8.ofNat_toNat] at this
+
+theorem packGo_presentByte (many : Bool) (b : UInt8) (rest : Name) (f w : Bool) (cur : List UInt8)
+    (acc : List (List UInt8)) (off : Nat) :
+    packGo many (presentByte b ++ rest) f w cur acc off = packGo many rest false false (cur ++ [b]) acc off := by
+  have hs := byteShape b
+  unfold byteShapeOK at hs
+  unfold presentByte
+  by_cases h1 : isLabelSpecial b = true
+  · simp only [h1, if_true] at hs ⊢
+    simp only [Bool.and_eq_true, Bool.not_eq_true', beq_iff_eq] at hs
+    rw [List.cons_append, List.cons_append, List.nil_append, packGo_esc _ _ _ _ _ _ _ _ hs.1, hs.2]
+  · simp only [h1, Bool.false_eq_true, if_false] at hs ⊢
+    by_cases h2 : (b.toNat < 32 || b.toNat > 126) = true
+    · simp only [h2, if_true] at hs ⊢
+      simp only [Bool.and_eq_true, beq_iff_eq] at hs
+      simp only [List.cons_append, List.nil_append]
+      rw [packGo_ddd _ _ _ _ _ _ _ _ _ _ (by simp [hs.1.1.1, hs.1.1.2, hs.1.2]), hs.2]
+    · simp only [h2, Bool.false_eq_true, if_false] at hs ⊢
+      simp only [Bool.and_eq_true, bne_iff_ne, ne_eq, beq_iff_eq] at hs
+      rw [List.cons_append, List.nil_append, packGo_lit _ _ _ _ _ _ _ _ hs.1.1 hs.1.2, hs.2]
+
+theorem packGo_bytes (many : Bool) (rest : Name) (acc : List (List UInt8)) (off : Nat) :
+    ∀ (l : List UInt8) (f w : Bool) (cur : List UInt8), l ≠ [] →
+      packGo many (l.flatMap presentByte ++ rest) f w cur acc off = packGo many rest false false (cur ++ l) acc off := by
+  intro l
+  induction l with
+  | nil => intro _ _ _ h; exact absurd rfl h
+  | cons b t ih =>
+    intro f w cur _
+    rw [List.flatMap_cons, List.append_assoc, packGo_presentByte]
+    cases t with
+    | nil => simp
+    | cons b' t' =>
+      rw [ih false false (cur ++ [b]) (by simp)]
+      simp
+
+theorem packGo_label (many : Bool) (l : List UInt8) (rest : Name) (f w : Bool) (acc : List (List UInt8)) (off : Nat)
+    (h1 : 0 < l.length) (h2 : l.length < 64) (h3 : off + 1 + l.length ≤ 256) :
+    packGo many (presentLabel l ++ rest) f w [] acc off = packGo many rest false true [] (l :: acc) (off + 1 + l.length) := by
+  unfold presentLabel
+  rw [List.append_assoc, packGo_bytes many _ acc off l f w [] (by intro h; rw [h] at h1; simp at h1)]
+  rw [List.singleton_append, packGo_dot]
+  have a : ¬ (l.length ≥ 64) := by omega
+  have b : ¬ (off + 1 + l.length > 256) := by omega
+  simp [a, b]
+
+theorem packGo_labels (many : Bool) : ∀ (ls : List (List UInt8)) (f w : Bool) (acc : List (List UInt8)) (off : Nat),
+    (∀ l ∈ ls, 0 < l.length ∧ l.length < 64) → off + (ls.map fun l => l.length + 1).sum ≤ 256 →
+    packGo many (presentLabels ls) f w [] acc off = some (acc.reverse ++ ls) := by
+  intro ls
+  induction ls with
+  | nil => intro f w acc off _ _; simp [presentLabels, packGo]
+  | cons l t ih =>
+    intro f w acc off hl hs
+    have hl0 := hl l (by simp)
+    simp only [List.map_cons, List.sum_cons] at hs
+    have e : presentLabels (l :: t) = presentLabel l ++ presentLabels t := by simp [presentLabels]
+    rw [e, packGo_label many l _ f w acc off hl0.1 hl0.2 (by omega)]
+    rw [ih false true (l :: acc) (off + 1 + l.length) (fun x hx => hl x (List.mem_cons_of_mem _ hx)) (by omega)]
+    simp
+
+/-- number of backslashes at the end of a string -/
+def trailBS (s : Name) : Nat := (s.reverse.takeWhile (· == '\\')).length
+
+theorem trailBS_snoc (s : Name) (c : Char) : trailBS (s ++ [c]) = if c == '\\' then trailBS s + 1 else 0 := by
+  unfold trailBS
+  simp only [List.reverse_append, List.reverse_cons, List.reverse_nil, List.nil_append, List.singleton_append,
+    List.takeWhile_cons]
+  split <;> simp
+
+def byteTailOK (b : UInt8) : Bool :=
+  presentByte b == ['\\', '\\'] ||
+    (match (presentByte b).reverse with | c :: _ => c != '\\' | [] => false)
+
+set_option maxRecDepth 16384 in
+theorem byteTail_all : ∀ n, n < 256 → byteTailOK (UInt8.ofNat n) = true := by decide
+
+theorem trailBS_presentByte (s : Name) (b : UInt8) (h : trailBS s % 2 = 0) : trailBS (s ++ presentByte b) % 2 = 0 := by
+  have hs : byteTailOK b = true := by
+    have := byteTail_all b.toNat b.toNat_lt
+    rwa [UInt8.ofNat_toNat] at this
+  unfold byteTailOK at hs
+  rw [Bool.or_eq_true] at hs
+  rcases hs with hs | hs
+  · have e : presentByte b = ['\\', '\\'] := by simpa using hs
+    rw [e]
+    have : s ++ ['\\', '\\'] = (s ++ ['\\']) ++ ['\\'] := by simp
+    rw [this, trailBS_snoc, trailBS_snoc]
+    simp; omega
+  · cases hr : (presentByte b).reverse with
+    | nil => rw [hr] at hs; simp at hs
+    | cons c t =>
+      rw [hr] at hs
+      have e : presentByte b = t.reverse ++ [c] := by
+        have := congrArg List.reverse hr
+        simpa using this
+      rw [e, ← List.append_assoc, trailBS_snoc]
+      have : (c == '\\') = false := by simpa using hs
+      simp [this]
+
+theorem trailBS_bytes (l : List UInt8) : ∀ (s : Name), trailBS s % 2 = 0 → trailBS (s ++ l.flatMap presentByte) % 2 = 0 := by
+  induction l with
+  | nil => intro s h; simpa using h
+  | cons b t ih =>
+    intro s h
+    rw [List.flatMap_cons, ← List.append_assoc]
+    exact ih _ (trailBS_presentByte s b h)
+
+theorem isFqdn_presentLabels (ls : List (List UInt8)) (h : ls ≠ []) : isFqdn (presentLabels ls) = true := by
+  obtain ⟨init, l, rfl⟩ : ∃ init l, ls = init ++ [l] := by
+    cases hd : ls.reverse with
+    | nil => simp at hd; exact absurd hd h
+    | cons l t =>
+      refine ⟨t.reverse, l, ?_⟩
+      have := congrArg List.reverse hd
+      simpa using this
+  have e : presentLabels (init ++ [l]) = (presentLabels init ++ l.flatMap presentByte) ++ ['.'] := by
+    rw [presentLabels_append]; simp [presentLabels, presentLabel]
+  have h0 : trailBS (presentLabels init) % 2 = 0 := by
+    by_cases hi : init = []
+    · subst hi; simp [presentLabels, trailBS]
+    · obtain ⟨x, hx⟩ := presentLabels_ends_with_dot init hi
+      rw [hx, trailBS_snoc]; simp
+  have := trailBS_bytes l _ h0
+  rw [e]
+  unfold isFqdn
+  simp only [List.reverse_append, List.reverse_cons, List.reverse_nil, List.nil_append, List.singleton_append]
+  unfold trailBS at this
+  simpa using this
+
+theorem presentByte_length_pos (b : UInt8) : 0 < (presentByte b).length := by
+  unfold presentByte; split <;> (try split) <;> simp
+
+
 end SdnsVerif.Lemmas.Dns64
